@@ -55,6 +55,10 @@ type BindSpec struct {
 }
 
 type ReqSpec struct {
+	// OuterURL: "" the request URL | port-other | port-default | query | userinfo — the url of the OUTER JWS (and of a
+	// binding whose URL is "same") names the request URL respelled, e.g. the same path on another port of the host
+	// (another server): the binding must name the new-account URL of THIS server
+	OuterURL     string
 	Prov         int
 	AccKey       int
 	OnlyExisting bool
@@ -191,7 +195,18 @@ func b64(b []byte) string { return base64.RawURLEncoding.EncodeToString(b) }
 func (w *world) build(k *Case, rs ReqSpec, keys []liveKey, accKeys []*env.Key) built {
 	p := provs[rs.Prov%len(provs)]
 	path := env.Path(p.Name, "new-account")
-	outerURL := env.URL(path)
+	outerURL := env.URL(path) // the request URL; what the binding is judged against
+	jwsURL := outerURL        // what the outer JWS (and a "same" binding) says
+	switch rs.OuterURL {
+	case "port-other":
+		jwsURL = "https://" + env.Host + ":8443" + path
+	case "port-default":
+		jwsURL = "https://" + env.Host + ":443" + path
+	case "query":
+		jwsURL = outerURL + "?"
+	case "userinfo":
+		jwsURL = "https://u@" + env.Host + path
+	}
 	ak := accKeys[rs.AccKey%len(accKeys)]
 	var out built
 	out.path = path
@@ -221,7 +236,7 @@ func (w *world) build(k *Case, rs ReqSpec, keys []liveKey, accKeys []*env.Key) b
 		}
 		switch bs.URL {
 		case "same":
-			prot["url"] = outerURL
+			prot["url"] = jwsURL
 		case "other":
 			prot["url"] = env.URL(env.Path(p.Name, "new-order"))
 		case "nonstring":
@@ -346,7 +361,7 @@ func (w *world) build(k *Case, rs ReqSpec, keys []liveKey, accKeys []*env.Key) b
 	}
 	pl, _ := json.Marshal(payload)
 	nonce := w.e.Nonce(p.Name)
-	s := &env.Shape{Ser: "flat", Protected: map[string]any{"alg": "ES256", "nonce": nonce, "url": outerURL,
+	s := &env.Shape{Ser: "flat", Protected: map[string]any{"alg": "ES256", "nonce": nonce, "url": jwsURL,
 		"jwk": env.JWKMap(ak.JWK())}, Payload: pl, NSigs: 1, SignKey: ak}
 	out.body, _ = s.Build()
 	out.facts = fmt.Sprintf("%d,%s,%d,%d,%s,%s,%s,%s", rs.Prov%len(provs)+1, c.B(p.RequireEAB), 41+rs.AccKey%len(accKeys),
@@ -941,6 +956,9 @@ func main() {
 			b.URL = u
 			emit(&Case{Kind: "hist", Keys: []KeySpec{{0}}, Reqs: []ReqSpec{{Prov: 0, AccKey: 0, Bind: b}, {Prov: 0, AccKey: 0, Bind: validBind(0)}}})
 		}
+		for _, ou := range []string{"port-other", "port-default", "query", "userinfo"} {
+			emit(&Case{Kind: "hist", Keys: []KeySpec{{0}}, Reqs: []ReqSpec{{OuterURL: ou, Prov: 0, AccKey: 0, Bind: validBind(0)}, {Prov: 0, AccKey: 0, Bind: validBind(0)}}})
+		}
 		for _, pl := range []string{"other-kid-outer", "other-kid-arb", "outer-kid-arb"} {
 			b := validBind(0)
 			b.Payload = pl
@@ -1036,6 +1054,9 @@ func main() {
 			b := validBind(0)
 			b.URL = u
 			emit(&Case{Kind: "bindonce", Keys: []KeySpec{{0}}, Reqs: []ReqSpec{{Prov: 0, AccKey: 0, Bind: b}, {Prov: 0, AccKey: 0, Bind: validBind(0)}}})
+		}
+		for _, ou := range []string{"port-other", "port-default", "query", "userinfo"} {
+			emit(&Case{Kind: "bindonce", Keys: []KeySpec{{0}}, Reqs: []ReqSpec{{OuterURL: ou, Prov: 0, AccKey: 0, Bind: validBind(0)}, {Prov: 0, AccKey: 0, Bind: validBind(0)}}})
 		}
 		for _, pl := range []string{"other-kid-outer", "other-kid-arb", "outer-kid-arb"} {
 			b := validBind(0)
